@@ -18,6 +18,7 @@ import re
 import ast
 
 import dim_rules
+import common
 from common import AnalysisError, Finding, norm
 
 EXPLANATION = ("dimension-typing abstract interpretation (L, excitation, mu0, log-affine flag) of all registered field functions x "
@@ -63,6 +64,13 @@ def run(repo, res, tier):
             n_find += 1
             f_ = Finding(fd.kind, fd.module + ".py", fd.func, fd.node, fd.msg, getattr(fd.node, "lineno", None))
             f_.sig = ",".join(sorted(re.findall(r"D\([^)]*\)", fd.msg)))
+            try:
+                m_ = repo.mods.get(fd.module if fd.module in repo.mods else "magpylib._src.fields." + fd.module.split("/")[-1])
+                fn_ = m_.funcs.get(fd.func) if m_ is not None else None
+                if fn_ is not None and isinstance(fd.node, ast.AST):
+                    f_.set_alt(common.expand_single_defs(fd.node, fn_))
+            except Exception:  # noqa - the alternative spelling is optional
+                pass
             res.add(f_)
         if r.get("undecided"):
             u = f"DIM-UNDECIDED {r['entry']}/{r.get('field', '-')}: a construct outside the typed fragment ({r['undecided'][:90]}); the typed remainder was judged, the return dimension is not claimed"
